@@ -25,9 +25,15 @@ use std::ops::{Add, AddAssign, Div, Mul, MulAssign, Sub};
 // ---------------------------------------------------------------------------------------------
 // shapes
 // ---------------------------------------------------------------------------------------------
-/// input outcome codes: 0 = Err(Other(1)), 1 = Err(Other(2)), 2 = Ok(None), 3.. = present
-/// (value payloads: 3; booleans: 3 = Some(false), 4 = Some(true))
-const NONE: u8 = 2;
+/// input outcome codes: 0 = Err(FromNone) (the crate's own error, what an upstream NoneToError
+/// produces), 1 = Err(Other(1)), 2 = Err(Other(2)), 3 = Ok(None), 4.. = present
+/// (value payloads: 4; booleans: 4 = Some(false), 5 = Some(true))
+const NONE: u8 = 3;
+const PRES: u8 = 4;
+const TRUE: u8 = 5;
+/// alphabet sizes of a value input / a boolean input
+const AV: u8 = 5;
+const AB: u8 = 6;
 const NOT_PRESENT: u8 = 255;
 #[derive(Clone, Debug, Hash, PartialEq, Eq)]
 struct Shape {
@@ -61,7 +67,7 @@ fn weak_orders(k: usize) -> Vec<Vec<u8>> {
     }
     out
 }
-/// all shapes for inputs with the given alphabet sizes (4 = value input, 5 = boolean input)
+/// all shapes for inputs with the given alphabet sizes (AV = value input, AB = boolean input)
 fn shapes(alph: &[u8]) -> Vec<Shape> {
     let wo: Vec<Vec<Vec<u8>>> = (0..=alph.len()).map(weak_orders).collect();
     let total: u64 = alph.iter().map(|a| *a as u64).product();
@@ -134,9 +140,8 @@ fn stamps_for(rng: &mut Rng, sh: &Shape) -> Vec<i64> {
 }
 fn mk<T>(code: u8, t: i64, v: T) -> Out<T> {
     match code {
-        0 => Err(Error::Other(1)),
-        1 => Err(Error::Other(2)),
-        2 => Ok(None),
+        c if c < NONE => Err(err_code(c)),
+        NONE => Ok(None),
         _ => Ok(Some(Datum::new(Time(t), v))),
     }
 }
@@ -170,6 +175,12 @@ trait Pay:
     fn additive(rng: &mut Rng, n: usize) -> Vec<Self>;
     /// n values that may be multiplied / divided (any units; exponents stay far inside i8)
     fn multiplicative(rng: &mut Rng, n: usize) -> Vec<Self>;
+    /// a fresh value that may be added to / subtracted from `proto` (same unit)
+    fn like(rng: &mut Rng, proto: Self) -> Self;
+    /// ExponentStream exists for f32 only
+    fn exponent(_base: &Src<Self>, _exponent: &Src<Self>) -> Option<Box<dyn Getter<Self, E>>> {
+        None
+    }
 }
 fn fval(rng: &mut Rng) -> f32 {
     if rng.chance(0.4) {
@@ -205,6 +216,12 @@ impl Pay for f32 {
     fn multiplicative(rng: &mut Rng, n: usize) -> Vec<f32> {
         fvals(rng, n)
     }
+    fn like(rng: &mut Rng, _proto: f32) -> f32 {
+        fval(rng)
+    }
+    fn exponent(base: &Src<f32>, exponent: &Src<f32>) -> Option<Box<dyn Getter<f32, E>>> {
+        Some(Box::new(ExponentStream::new(base.dynref(), exponent.typed())))
+    }
 }
 impl Pay for Quantity {
     const NAME: &'static str = "Quantity";
@@ -217,6 +234,101 @@ impl Pay for Quantity {
     }
     fn multiplicative(rng: &mut Rng, n: usize) -> Vec<Quantity> {
         fvals(rng, n).into_iter().map(|x| Quantity::new(x, unit(rng))).collect()
+    }
+    fn like(rng: &mut Rng, proto: Quantity) -> Quantity {
+        Quantity::new(fval(rng), proto.unit)
+    }
+}
+/// A payload whose `+` and `*` are associative but NOT commutative, so that "combined in input
+/// order" is observable (for f32 and Quantity `b * a` and `a * b` have the same bits).
+/// `*` is 2x2 integer matrix multiplication ([a b; c d] row-major); `+` composes two pairs of affine
+/// maps x -> p*x + q (entries (0,1) and (2,3)); `-` is entrywise; `/` multiplies by the adjugate of
+/// the right operand. All arithmetic wraps (it never overflows with the entries used anyway).
+#[derive(Clone, Copy, PartialEq, Debug)]
+struct M2([i64; 4]);
+impl Mul for M2 {
+    type Output = M2;
+    fn mul(self, r: M2) -> M2 {
+        let (a, b) = (self.0, r.0);
+        let m = |x: i64, y: i64| x.wrapping_mul(y);
+        M2([
+            m(a[0], b[0]).wrapping_add(m(a[1], b[2])),
+            m(a[0], b[1]).wrapping_add(m(a[1], b[3])),
+            m(a[2], b[0]).wrapping_add(m(a[3], b[2])),
+            m(a[2], b[1]).wrapping_add(m(a[3], b[3])),
+        ])
+    }
+}
+impl MulAssign for M2 {
+    fn mul_assign(&mut self, r: M2) {
+        *self = *self * r;
+    }
+}
+impl Add for M2 {
+    type Output = M2;
+    fn add(self, r: M2) -> M2 {
+        let (a, b) = (self.0, r.0);
+        let m = |x: i64, y: i64| x.wrapping_mul(y);
+        // (p, q) o (p', q') = (p*p', p*q' + q)
+        M2([m(a[0], b[0]), m(a[0], b[1]).wrapping_add(a[1]), m(a[2], b[2]), m(a[2], b[3]).wrapping_add(a[3])])
+    }
+}
+impl AddAssign for M2 {
+    fn add_assign(&mut self, r: M2) {
+        *self = *self + r;
+    }
+}
+impl Sub for M2 {
+    type Output = M2;
+    fn sub(self, r: M2) -> M2 {
+        let (a, b) = (self.0, r.0);
+        M2([a[0].wrapping_sub(b[0]), a[1].wrapping_sub(b[1]), a[2].wrapping_sub(b[2]), a[3].wrapping_sub(b[3])])
+    }
+}
+impl Div for M2 {
+    type Output = M2;
+    fn div(self, r: M2) -> M2 {
+        let b = r.0;
+        self * M2([b[3], b[1].wrapping_neg(), b[2].wrapping_neg(), b[0]])
+    }
+}
+fn m2val(rng: &mut Rng) -> M2 {
+    match rng.below(8) {
+        0 => M2([1, 0, 0, 1]),
+        1 => M2([0, -1, 1, 0]), // rotation
+        2 => M2([1, rng.range_i64(1, 3), 0, 1]), // shear
+        _ => M2([rng.range_i64(-3, 3), rng.range_i64(-3, 3), rng.range_i64(-3, 3), rng.range_i64(-3, 3)]),
+    }
+}
+impl Pay for M2 {
+    const NAME: &'static str = "M2";
+    fn veq(a: &M2, b: &M2) -> bool {
+        a == b
+    }
+    fn additive(rng: &mut Rng, n: usize) -> Vec<M2> {
+        (0..n).map(|_| m2val(rng)).collect()
+    }
+    fn multiplicative(rng: &mut Rng, n: usize) -> Vec<M2> {
+        (0..n).map(|_| m2val(rng)).collect()
+    }
+    fn like(rng: &mut Rng, _proto: M2) -> M2 {
+        m2val(rng)
+    }
+}
+/// tally the folds whose result depends on the operand order (only meaningful for M2)
+fn order_sensitive<T: Pay>(rep: &mut Report, stream: &str, outs: &[Out<T>], op: fn(T, T) -> T) {
+    if T::NAME != "M2" || first_err(outs).is_some() {
+        return;
+    }
+    let p = present(outs);
+    if p.len() < 2 {
+        return;
+    }
+    let fwd = p[1..].iter().fold(p[0].value, |a, d| op(a, d.value));
+    let rev = p[..p.len() - 1].iter().rev().fold(p[p.len() - 1].value, |a, d| op(a, d.value));
+    let swp = p[1..].iter().fold(p[0].value, |a, d| op(d.value, a));
+    if !T::veq(&fwd, &rev) && !T::veq(&fwd, &swp) {
+        rep.tally(&format!("order_sensitive:{}", stream));
     }
 }
 fn beq(a: &bool, b: &bool) -> bool {
@@ -399,6 +511,11 @@ fn nary_case<T: Pay>(ck: &mut Ck, kind: Kind, sh: &Shape, rng: &mut Rng) {
     let desc = || format!("{}<{},{}> inputs {:?}", kind.name(), T::NAME, n, outs);
     ck.rep.distinct((kind.name(), T::NAME, &sh.codes, &sh.ranks));
     let hit = ck.check(kind.name(), &obs, &ok, T::veq, &desc);
+    match kind {
+        Kind::Sum => order_sensitive(ck.rep, "SumStream", &outs, |a, b| a + b),
+        Kind::Product => order_sensitive(ck.rep, "ProductStream", &outs, |a, b| a * b),
+        Kind::Latest => {}
+    }
     if kind == Kind::Latest && ok.len() > 1 && hit.is_some() {
         ck.rep.tally("latest_ties_checked");
         if hit == Some(0) {
@@ -457,12 +574,14 @@ fn binary_case<T: Pay>(ck: &mut Ck, sh: &Shape, rng: &mut Rng) {
         ck.check("Sum2", &o_s2, &[exp_sum.clone()], T::veq, &|| format!("Sum2{}", desc()));
         ck.check("SumStream", &o_sn, &[exp_sum], T::veq, &|| format!("SumStream<2>{}", desc()));
         ck.agree("Sum2-vs-SumStream", &o_s2, &o_sn, T::veq, &|| format!("Sum2 vs SumStream<2>{}", desc()));
+        order_sensitive(ck.rep, "Sum2", &outs, |a, b| a + b);
+        order_sensitive(ck.rep, "DifferenceStream", &outs, |a, b| a - b);
         let exp_df = asym_oracle(&outs, |a, b| a - b);
         ck.check("DifferenceStream", &o_df, &[exp_df], T::veq, &|| format!("DifferenceStream{}", desc()));
         if ck.rep.verbose {
             eprintln!("case {}:{} additive{} Sum2 {:?} SumStream<2> {:?} Difference {:?}", ck.sub, ck.case, desc(), o_s2, o_sn, o_df);
         }
-        if ck.rep.want_sample("binary") && sh.codes == [3, 3] {
+        if ck.rep.want_sample("binary") && sh.codes == [PRES, PRES] {
             ck.rep.sample("binary", format!("DifferenceStream{} -> {:?}", desc(), first(&o_df)));
         }
     }
@@ -482,6 +601,8 @@ fn binary_case<T: Pay>(ck: &mut Ck, sh: &Shape, rng: &mut Rng) {
         ck.check("Product2", &o_p2, &[exp_prod.clone()], T::veq, &|| format!("Product2{}", desc()));
         ck.check("ProductStream", &o_pn, &[exp_prod], T::veq, &|| format!("ProductStream<2>{}", desc()));
         ck.agree("Product2-vs-ProductStream", &o_p2, &o_pn, T::veq, &|| format!("Product2 vs ProductStream<2>{}", desc()));
+        order_sensitive(ck.rep, "Product2", &outs, |a, b| a * b);
+        order_sensitive(ck.rep, "QuotientStream", &outs, |a, b| a / b);
         let exp_qt = asym_oracle(&outs, |a, b| a / b);
         ck.check("QuotientStream", &o_qt, &[exp_qt], T::veq, &|| format!("QuotientStream{}", desc()));
         if ck.rep.verbose {
@@ -532,7 +653,7 @@ fn exponent_case(ck: &mut Ck, sh: &Shape, rng: &mut Rng) {
     if ck.rep.verbose {
         eprintln!("case {}:{} {} -> {:?}", ck.sub, ck.case, desc(), obs);
     }
-    if sh.codes == [3, 3] {
+    if sh.codes == [PRES, PRES] {
         if sane {
             // operand order / operator sanity against f64 powf, very loose (relative 1e-3)
             if let Ok(o) = &obs {
@@ -602,7 +723,7 @@ fn not_oracle(o: &Out<bool>) -> Out<bool> {
 }
 fn logic2_case(ck: &mut Ck, sh: &Shape, rng: &mut Rng) {
     let ts = stamps_for(rng, sh);
-    let outs: Vec<Out<bool>> = (0..2).map(|i| mk(sh.codes[i], ts[i], sh.codes[i] == 4)).collect();
+    let outs: Vec<Out<bool>> = (0..2).map(|i| mk(sh.codes[i], ts[i], sh.codes[i] == TRUE)).collect();
     let (a, b) = (Src::with(outs[0].clone()), Src::with(outs[1].clone()));
     let desc = || format!(" inputs {:?}", outs);
     ck.rep.distinct(("logic2", &sh.codes, &sh.ranks));
@@ -632,7 +753,7 @@ fn logic2_case(ck: &mut Ck, sh: &Shape, rng: &mut Rng) {
 }
 fn not_case(ck: &mut Ck, sh: &Shape, rng: &mut Rng) {
     let ts = stamps_for(rng, sh);
-    let out: Out<bool> = mk(sh.codes[0], ts[0], sh.codes[0] == 4);
+    let out: Out<bool> = mk(sh.codes[0], ts[0], sh.codes[0] == TRUE);
     let a = Src::with(out.clone());
     ck.rep.distinct(("not", &sh.codes));
     let n1 = NotStream::new(a.dynref());
@@ -653,7 +774,7 @@ fn not_case(ck: &mut Ck, sh: &Shape, rng: &mut Rng) {
 fn if_case<T: Pay>(ck: &mut Ck, sh: &Shape, rng: &mut Rng) {
     let ts = stamps_for(rng, sh);
     let v = T::additive(rng, 1)[0];
-    let cond: Out<bool> = mk(sh.codes[0], ts[0], sh.codes[0] == 4);
+    let cond: Out<bool> = mk(sh.codes[0], ts[0], sh.codes[0] == TRUE);
     let inp: Out<T> = mk(sh.codes[1], ts[1], v);
     let (c, i) = (Src::with(cond.clone()), Src::with(inp.clone()));
     let st = IfStream::new(c.dynref(), i.dynref());
@@ -685,7 +806,7 @@ fn if_case<T: Pay>(ck: &mut Ck, sh: &Shape, rng: &mut Rng) {
 fn ifelse_case<T: Pay>(ck: &mut Ck, sh: &Shape, rng: &mut Rng) {
     let ts = stamps_for(rng, sh);
     let vals = T::additive(rng, 2);
-    let cond: Out<bool> = mk(sh.codes[0], ts[0], sh.codes[0] == 4);
+    let cond: Out<bool> = mk(sh.codes[0], ts[0], sh.codes[0] == TRUE);
     let tv: Out<T> = mk(sh.codes[1], ts[1], vals[0]);
     let fv: Out<T> = mk(sh.codes[2], ts[2], vals[1]);
     let (c, t, fl) = (Src::with(cond.clone()), Src::with(tv.clone()), Src::with(fv.clone()));
@@ -726,7 +847,7 @@ fn ifelse_case<T: Pay>(ck: &mut Ck, sh: &Shape, rng: &mut Rng) {
     if ck.rep.verbose {
         eprintln!("case {}:{} {} -> {:?}", ck.sub, ck.case, desc(), obs);
     }
-    if ck.rep.want_sample("ifelse") && sh.codes[0] == 3 && sh.codes[1] < 2 && sh.codes[2] == 3 {
+    if ck.rep.want_sample("ifelse") && sh.codes[0] == PRES && sh.codes[1] < NONE && sh.codes[2] == PRES {
         ck.rep.sample("ifelse", format!("{} -> {:?}", desc(), first(&obs)));
     }
 }
@@ -739,8 +860,9 @@ fn tg_of(code: u8, now: i64) -> (TSrc, TimeOutput<E>) {
     match code {
         0 => (t, Ok(Time(now))),
         c => {
-            t.err(c);
-            (t, Err(Error::Other(c)))
+            let e = err_code(c - 1);
+            t.0.borrow_mut().out = Err(e);
+            (t, Err(e))
         }
     }
 }
@@ -765,7 +887,7 @@ fn none_to_error_case<T: Pay>(ck: &mut Ck, code: u8, rng: &mut Rng) {
         ck.rep.sample("none_to_error", format!("{} -> {:?}", desc(), first(&obs)));
     }
 }
-/// tgc: 0 = time getter fine, 1/2 = time getter returns Err(Other(1/2)); rel: order of `now` versus
+/// tgc: 0 = time getter fine, 1/2/3 = time getter returns Err(FromNone / Other(1) / Other(2)); rel: order of `now` versus
 /// the input's stamp (0 <, 1 =, 2 >)
 fn none_to_value_case<T: Pay>(ck: &mut Ck, code: u8, tgc: u8, rel: u8, rng: &mut Rng) {
     let st2 = distinct_stamps(rng, 2);
@@ -806,7 +928,8 @@ fn none_to_value_case<T: Pay>(ck: &mut Ck, code: u8, tgc: u8, rel: u8, rng: &mut
         ck.rep.sample("none_to_value", format!("{} -> {:?}", desc(), first(&obs)));
     }
 }
-/// rel: data age versus limit (0 <, 1 =, 2 >); lim: stratum of the limit
+/// rel: data age versus limit (0 <, 1 =, 2 >, 3 = datum stamped LATER than the clock by more than
+/// |limit|: negative age, larger in magnitude than the limit); lim: stratum of the limit
 fn expirer_case<T: Pay>(ck: &mut Ck, code: u8, tgc: u8, rel: u8, lim: u8, rng: &mut Rng) {
     // the Expirer subtracts times: everything stays below 2^61 in magnitude (guide, Discipline 4)
     let t = match rng.below(6) {
@@ -831,7 +954,8 @@ fn expirer_case<T: Pay>(ck: &mut Ck, code: u8, tgc: u8, rel: u8, lim: u8, rng: &
     let d = match rel {
         0 => -g,
         1 => 0,
-        _ => g,
+        2 => g,
+        _ => -limit - limit.abs() - g, // age = -(|limit| + g)
     };
     let now = t + limit + d; // |now| <= 2^59 + 2^59 + 2^58 < 2^61; now - t = limit + d exactly
     let v = T::additive(rng, 1)[0];
@@ -862,17 +986,18 @@ fn expirer_case<T: Pay>(ck: &mut Ck, code: u8, tgc: u8, rel: u8, lim: u8, rng: &
     ck.rep.distinct(("Expirer", T::NAME, code, tgc, rel, lim));
     let desc = || format!("Expirer<{}> input {:?} time getter {:?} max_time_delta {} (age - limit = {})", T::NAME, inp, tgo, limit, d);
     let hit = ck.check("Expirer", &obs, &ok, T::veq, &desc);
-    if hit.is_some() && code == 3 && tgc == 0 {
+    if hit.is_some() && code == PRES && tgc == 0 {
         ck.rep.tally(match rel {
             0 => "expirer_kept_younger_than_limit",
             1 => "expirer_kept_exactly_at_limit",
-            _ => "expirer_expired",
+            2 => "expirer_expired",
+            _ => "expirer_kept_datum_newer_than_clock_by_more_than_limit",
         });
     }
     if ck.rep.verbose {
         eprintln!("case {}:{} {} -> {:?}", ck.sub, ck.case, desc(), obs);
     }
-    if ck.rep.want_sample("expirer") && code == 3 && tgc == 0 && rel == 1 {
+    if ck.rep.want_sample("expirer") && code == PRES && tgc == 0 && (rel == 1 || rel == 3) {
         ck.rep.sample("expirer", format!("{} -> {:?}", desc(), first(&obs)));
     }
 }
@@ -916,6 +1041,414 @@ fn none_getter_case(ck: &mut Ck) {
 }
 
 // ---------------------------------------------------------------------------------------------
+// long-lived instances: "Reading a combinator never changes what a later read returns"
+// ---------------------------------------------------------------------------------------------
+// One stream object per combinator is kept alive over a sequence of 8..=16 input assignments in
+// which consecutive assignments differ in exactly one aspect (one input's timestamp, one input's
+// value, or one input's outcome category). After every assignment each read of the long-lived
+// object must equal, bit for bit (category, error, timestamp, value), the read of a freshly
+// constructed stream of the same kind given the same inputs: a stateless combinator has no memory.
+// (NoneGetter has no inputs and is a unit struct; its repeated reads are covered in `none_getter`.)
+#[derive(Clone, Copy, PartialEq, Eq, Debug, Hash)]
+enum LK {
+    Sum(usize),
+    Product(usize),
+    Latest(usize),
+    Sum2,
+    Product2,
+    Difference,
+    Quotient,
+    Exponent,
+    And,
+    Or,
+    Not,
+    If,
+    IfElse,
+    NoneToError,
+    NoneToValue,
+    Expirer,
+    Constant,
+}
+impl LK {
+    fn name(self) -> &'static str {
+        match self {
+            LK::Sum(_) => "SumStream",
+            LK::Product(_) => "ProductStream",
+            LK::Latest(_) => "Latest",
+            LK::Sum2 => "Sum2",
+            LK::Product2 => "Product2",
+            LK::Difference => "DifferenceStream",
+            LK::Quotient => "QuotientStream",
+            LK::Exponent => "ExponentStream",
+            LK::And => "AndStream",
+            LK::Or => "OrStream",
+            LK::Not => "NotStream",
+            LK::If => "IfStream",
+            LK::IfElse => "IfElseStream",
+            LK::NoneToError => "NoneToError",
+            LK::NoneToValue => "NoneToValue",
+            LK::Expirer => "Expirer",
+            LK::Constant => "ConstantGetter",
+        }
+    }
+    /// input slots: 'V' value getter, 'B' boolean getter, 'C' clock
+    fn layout(self) -> Vec<char> {
+        match self {
+            LK::Sum(n) | LK::Product(n) | LK::Latest(n) => vec!['V'; n],
+            LK::Sum2 | LK::Product2 | LK::Difference | LK::Quotient | LK::Exponent => vec!['V', 'V'],
+            LK::And | LK::Or => vec!['B', 'B'],
+            LK::Not => vec!['B'],
+            LK::If => vec!['B', 'V'],
+            LK::IfElse => vec!['B', 'V', 'V'],
+            LK::NoneToError => vec!['V'],
+            LK::NoneToValue | LK::Expirer => vec!['V', 'C'],
+            LK::Constant => vec!['C'],
+        }
+    }
+}
+#[derive(Clone, Debug)]
+enum Slot<T> {
+    V(Out<T>),
+    B(Out<bool>),
+    C(TimeOutput<E>),
+}
+enum SlotSrc<T: Clone> {
+    V(Src<T>),
+    B(Src<bool>),
+    C(TSrc),
+}
+#[derive(Debug)]
+enum AnyOut<T> {
+    V(Out<T>),
+    B(Out<bool>),
+}
+fn any_same<T: Pay>(a: &AnyOut<T>, b: &AnyOut<T>) -> bool {
+    match (a, b) {
+        (AnyOut::V(x), AnyOut::V(y)) => out_same(x, y, T::veq),
+        (AnyOut::B(x), AnyOut::B(y)) => out_same(x, y, beq),
+        _ => false,
+    }
+}
+/// constructor parameters, fixed over a sequence and shared by the fresh instances
+struct Extra<T> {
+    none_value: T,
+    constant: T,
+    limit: i64,
+}
+struct Rig<T: Clone> {
+    srcs: Vec<SlotSrc<T>>,
+    read: Box<dyn Fn() -> AnyOut<T>>,
+}
+impl<T: Clone + 'static> Rig<T> {
+    fn set(&self, slots: &[Slot<T>]) {
+        for (s, v) in self.srcs.iter().zip(slots) {
+            match (s, v) {
+                (SlotSrc::V(s), Slot::V(o)) => s.set(o.clone()),
+                (SlotSrc::B(s), Slot::B(o)) => s.set(o.clone()),
+                (SlotSrc::C(s), Slot::C(o)) => s.0.borrow_mut().out = *o,
+                _ => unreachable!(),
+            }
+        }
+    }
+}
+fn vbox<T: 'static, G: Getter<T, E> + 'static>(g: G) -> Box<dyn Fn() -> AnyOut<T>> {
+    Box::new(move || AnyOut::V(g.get()))
+}
+fn bbox<T: 'static, G: Getter<bool, E> + 'static>(g: G) -> Box<dyn Fn() -> AnyOut<T>> {
+    Box::new(move || AnyOut::B(g.get()))
+}
+fn make<T: Pay>(kind: LK, ex: &Extra<T>) -> Rig<T> {
+    let srcs: Vec<SlotSrc<T>> = kind
+        .layout()
+        .iter()
+        .map(|c| match c {
+            'V' => SlotSrc::V(Src::new()),
+            'B' => SlotSrc::B(Src::new()),
+            _ => SlotSrc::C(TSrc::new(0)),
+        })
+        .collect();
+    let v = |i: usize| -> Src<T> {
+        match &srcs[i] {
+            SlotSrc::V(s) => s.clone(),
+            _ => unreachable!(),
+        }
+    };
+    let b = |i: usize| -> Src<bool> {
+        match &srcs[i] {
+            SlotSrc::B(s) => s.clone(),
+            _ => unreachable!(),
+        }
+    };
+    let c = |i: usize| -> TSrc {
+        match &srcs[i] {
+            SlotSrc::C(s) => s.clone(),
+            _ => unreachable!(),
+        }
+    };
+    let nary = |k: Kind, n: usize| -> Box<dyn Fn() -> AnyOut<T>> {
+        let ss: Vec<Src<T>> = (0..n).map(&v).collect();
+        let g = build_nary::<T>(k, &ss);
+        Box::new(move || AnyOut::V(g.get()))
+    };
+    let read: Box<dyn Fn() -> AnyOut<T>> = match kind {
+        LK::Sum(n) => nary(Kind::Sum, n),
+        LK::Product(n) => nary(Kind::Product, n),
+        LK::Latest(n) => nary(Kind::Latest, n),
+        LK::Sum2 => vbox(Sum2::new(v(0).dynref(), v(1).typed())),
+        LK::Product2 => vbox(Product2::new(v(0).typed(), v(1).dynref())),
+        LK::Difference => vbox(DifferenceStream::new(v(0).typed(), v(1).dynref())),
+        LK::Quotient => vbox(QuotientStream::new(v(0).dynref(), v(1).typed())),
+        LK::Exponent => {
+            let g = T::exponent(&v(0), &v(1)).expect("ExponentStream is only instantiated for f32");
+            Box::new(move || AnyOut::V(g.get()))
+        }
+        LK::And => bbox(AndStream::new(b(0).dynref(), b(1).typed())),
+        LK::Or => bbox(OrStream::new(b(0).typed(), b(1).dynref())),
+        LK::Not => bbox(NotStream::new(b(0).dynref())),
+        LK::If => vbox(IfStream::new(b(0).dynref(), v(1).dynref())),
+        LK::IfElse => vbox(IfElseStream::new(b(0).typed(), v(1).dynref(), v(2).typed())),
+        LK::NoneToError => vbox(NoneToError::new(v(0).dynref())),
+        LK::NoneToValue => vbox(NoneToValue::new(v(0).dynref(), c(1).dynref(), ex.none_value)),
+        LK::Expirer => vbox(Expirer::new(v(0).dynref(), c(1).dynref(), Time(ex.limit))),
+        LK::Constant => vbox(ConstantGetter::new(c(0).dynref(), ex.constant)),
+    };
+    Rig { srcs, read }
+}
+/// value / stamp generator of one sequence
+struct Gen<T> {
+    proto: T,
+    multiplicative: bool,
+    /// Expirer subtracts times: keep |t| <= 2^59 (guide, Discipline 4)
+    bounded: bool,
+}
+const B59: i64 = 1i64 << 59;
+fn ll_val<T: Pay>(rng: &mut Rng, g: &Gen<T>) -> T {
+    if g.multiplicative {
+        T::multiplicative(rng, 1)[0]
+    } else {
+        T::like(rng, g.proto)
+    }
+}
+fn ll_stamp(rng: &mut Rng, bounded: bool) -> i64 {
+    if bounded {
+        match rng.below(5) {
+            0 => 0,
+            1 => rng.range_i64(-1000, 1000),
+            2 => rng.sign() as i64 * rng.range_i64(900_000_000_000_000, 1_100_000_000_000_000),
+            3 => rng.sign() as i64 * (B59 - rng.range_i64(0, 1000)),
+            _ => rng.range_i64(-(1i64 << 40), 1i64 << 40),
+        }
+    } else {
+        match rng.below(10) {
+            0 => i64::MIN,
+            1 => i64::MAX,
+            _ => rng.stamp(),
+        }
+    }
+}
+/// a stamp different from `t`: a small step up or down, a tie with another input, or unrelated
+fn ll_other_stamp(rng: &mut Rng, t: i64, others: &[i64], bounded: bool) -> i64 {
+    let mut nt = match rng.below(4) {
+        0 => t.checked_add(gap(rng)).unwrap_or(i64::MAX - 1),
+        1 => t.checked_sub(gap(rng)).unwrap_or(i64::MIN + 1),
+        2 if !others.is_empty() => *rng.pick(others),
+        _ => ll_stamp(rng, bounded),
+    };
+    if bounded {
+        nt = nt.clamp(-B59, B59);
+    }
+    if nt == t {
+        nt = if t > 0 { t - 1 } else { t + 1 };
+    }
+    nt
+}
+fn slot_cat<T>(s: &Slot<T>) -> u8 {
+    fn ec(e: &Error<E>) -> u8 {
+        match e {
+            Error::FromNone => 0,
+            Error::Other(1) => 1,
+            _ => 2,
+        }
+    }
+    match s {
+        Slot::V(Err(e)) | Slot::B(Err(e)) | Slot::C(Err(e)) => ec(e),
+        Slot::V(Ok(None)) | Slot::B(Ok(None)) => NONE,
+        _ => PRES,
+    }
+}
+fn slot_time<T>(s: &Slot<T>) -> Option<i64> {
+    match s {
+        Slot::V(Ok(Some(d))) => Some(d.time.0),
+        Slot::B(Ok(Some(d))) => Some(d.time.0),
+        Slot::C(Ok(t)) => Some(t.0),
+        _ => None,
+    }
+}
+/// Change exactly one aspect of exactly one slot. `shadow[i]` remembers the last present content of
+/// slot i, so that a slot going present -> absent/error -> present comes back with the SAME datum
+/// (the situation a stale cache would mishandle). Returns (aspect, slot index).
+fn mutate<T: Pay>(rng: &mut Rng, slots: &mut [Slot<T>], shadow: &mut [Slot<T>], g: &Gen<T>) -> (&'static str, usize) {
+    let want = rng.below(3);
+    let pres: Vec<usize> = (0..slots.len()).filter(|j| slot_cat(&slots[*j]) == PRES).collect();
+    // a timestamp / value change needs a present input; otherwise (or one time in three) a category change
+    let i = if want < 2 && !pres.is_empty() { *rng.pick(&pres) } else { rng.usize(slots.len()) };
+    let others: Vec<i64> = (0..slots.len()).filter(|j| *j != i).filter_map(|j| slot_time(&slots[j])).collect();
+    let present_now = slot_cat(&slots[i]) == PRES;
+    if present_now && want < 2 {
+        let aspect = match &mut slots[i] {
+            Slot::V(Ok(Some(d))) => {
+                if want == 0 {
+                    d.time = Time(ll_other_stamp(rng, d.time.0, &others, g.bounded));
+                    "time"
+                } else {
+                    let old = d.value;
+                    for _ in 0..4 {
+                        d.value = ll_val(rng, g);
+                        if !T::veq(&old, &d.value) {
+                            break;
+                        }
+                    }
+                    "value"
+                }
+            }
+            Slot::B(Ok(Some(d))) => {
+                if want == 0 {
+                    d.time = Time(ll_other_stamp(rng, d.time.0, &others, g.bounded));
+                    "time"
+                } else {
+                    d.value = !d.value;
+                    "value"
+                }
+            }
+            Slot::C(Ok(t)) => {
+                *t = Time(ll_other_stamp(rng, t.0, &others, g.bounded));
+                "time"
+            }
+            _ => unreachable!(),
+        };
+        shadow[i] = slots[i].clone();
+        return (aspect, i);
+    }
+    // category change
+    let cur = slot_cat(&slots[i]);
+    let is_clock = matches!(slots[i], Slot::C(_));
+    let new = loop {
+        let c = match rng.below(10) {
+            0..=3 => PRES,
+            4..=6 => NONE,
+            7 => 0,
+            8 => 1,
+            _ => 2,
+        };
+        if c != cur && !(is_clock && c == NONE) {
+            break c;
+        }
+    };
+    slots[i] = if new == PRES {
+        shadow[i].clone()
+    } else {
+        match &slots[i] {
+            Slot::V(_) => Slot::V(mk(new, 0, g.proto)),
+            Slot::B(_) => Slot::B(mk(new, 0, false)),
+            Slot::C(_) => Slot::C(Err(err_code(new))),
+        }
+    };
+    ("category", i)
+}
+fn longlived_case<T: Pay>(ck: &mut Ck, kind: LK, rng: &mut Rng) {
+    let len = 8 + rng.usize(9);
+    let g = Gen {
+        proto: T::additive(rng, 1)[0],
+        multiplicative: matches!(kind, LK::Product(_) | LK::Product2 | LK::Quotient),
+        bounded: kind == LK::Expirer,
+    };
+    let ex = Extra {
+        none_value: ll_val(rng, &g),
+        constant: ll_val(rng, &g),
+        limit: match rng.below(4) {
+            0 => 0,
+            1 => rng.range_i64(1, 1000),
+            2 => rng.range_i64(1_000_000_000, B59),
+            _ => -rng.range_i64(1, 1i64 << 40),
+        },
+    };
+    // initial assignment: everything present, stamps from a few distinct values (ties likely)
+    let lay = kind.layout();
+    let pool = distinct_stamps(rng, 3);
+    let pick_t = |rng: &mut Rng| if g.bounded { ll_stamp(rng, true) } else { *rng.pick(&pool) };
+    let mut shadow: Vec<Slot<T>> = Vec::new();
+    for c in &lay {
+        let t = pick_t(rng);
+        shadow.push(match c {
+            'V' => Slot::V(Ok(Some(Datum::new(Time(t), ll_val(rng, &g))))),
+            'B' => Slot::B(Ok(Some(Datum::new(Time(t), rng.chance(0.5))))),
+            _ => Slot::C(Ok(Time(t))),
+        });
+    }
+    let mut slots = shadow.clone();
+    if rng.chance(0.4) {
+        // start from a mixed assignment instead
+        for i in 0..slots.len() {
+            let c = rng.below(AV as u64 + 2) as u8; // present twice as likely as the others
+            if c < PRES && !(c == NONE && lay[i] == 'C') {
+                slots[i] = match lay[i] {
+                    'V' => Slot::V(mk(c, 0, g.proto)),
+                    'B' => Slot::B(mk(c, 0, false)),
+                    _ => Slot::C(Err(err_code(c))),
+                };
+            }
+        }
+    }
+    let rig = make::<T>(kind, &ex);
+    let stream = kind.name();
+    let mut history: Vec<String> = Vec::new();
+    let mut prev_fresh: Option<AnyOut<T>> = None;
+    for step in 0..len {
+        let (aspect, which) = if step == 0 { ("initial", 0) } else { mutate(rng, &mut slots, &mut shadow, &g) };
+        rig.set(&slots);
+        history.push(format!("#{} [{} of input {}] {:?}", step, aspect, which, slots));
+        let nreads = 1 + rng.usize(2);
+        let live: Result<Vec<AnyOut<T>>, String> = catch(|| (0..nreads).map(|_| (rig.read)()).collect());
+        let fresh_rig = make::<T>(kind, &ex);
+        fresh_rig.set(&slots);
+        let fresh = catch(|| (fresh_rig.read)());
+        ck.rep.eval();
+        let cats: Vec<u8> = slots.iter().map(slot_cat).collect();
+        ck.rep.distinct(("longlived", stream, T::NAME, lay.len(), aspect, which, cats));
+        if ck.rep.verbose {
+            eprintln!("case {}:{} {}<{}> {} -> long-lived {:?} fresh {:?}", ck.sub, ck.case, stream, T::NAME, history[step], live, fresh);
+        }
+        match (&live, &fresh) {
+            (Ok(l), Ok(fr)) => {
+                if l.iter().all(|x| any_same(x, fr)) {
+                    ck.rep.tally(&format!("history_steps:{}", aspect));
+                    if let Some(p) = &prev_fresh {
+                        if !any_same(p, fr) {
+                            ck.rep.tally(&format!("history_steps_changing_the_output:{}", aspect));
+                            if kind == LK::Exponent {
+                                ck.rep.tally("history_exponent_steps_changing_the_output");
+                            }
+                        }
+                    }
+                } else {
+                    ck.rep.violation(&format!("C02/{}/history", stream), ck.sub, ck.case,
+                        format!("{}<{}> (constructor: none_value {:?} constant {:?} limit {}): after the assignments {} the long-lived instance returns {:?} but a fresh instance given the last assignment returns {:?}",
+                            stream, T::NAME, ex.none_value, ex.constant, ex.limit, history.join("; "), l, fr));
+                }
+            }
+            _ => {
+                ck.rep.violation(&format!("C02/{}/panic", stream), ck.sub, ck.case,
+                    format!("{}<{}> after the assignments {}: long-lived {:?} fresh {:?}", stream, T::NAME, history.join("; "), live, fresh));
+            }
+        }
+        if step == len - 1 && ck.rep.want_sample("longlived") && lay.len() >= 2 && T::NAME == "f32" {
+            ck.rep.sample("longlived", format!("{}<{}> {} -> last read {:?}", stream, T::NAME, history.join("; "), fresh));
+        }
+        prev_fresh = fresh.ok();
+    }
+}
+
+// ---------------------------------------------------------------------------------------------
 fn main() {
     let args = Args::parse();
     let mut rep = Report::new("C02", &args);
@@ -925,14 +1458,14 @@ fn main() {
     {
         let mut all: Vec<Shape> = Vec::new();
         for n in 1..=5usize {
-            all.extend(shapes(&vec![4u8; n]));
+            all.extend(shapes(&vec![AV; n]));
         }
         rep.tally_n("shapes_nary_per_stream_and_payload", all.len() as u64);
         let mut idx = 0u64;
         for rpt in 0..reps {
             let _ = rpt;
             for kind in [Kind::Sum, Kind::Product, Kind::Latest] {
-                for p in 0..2 {
+                for p in 0..3 {
                     for sh in &all {
                         let case = idx;
                         idx += 1;
@@ -941,24 +1474,24 @@ fn main() {
                         }
                         let mut rng = Rng::new(args.seed, 201, case);
                         let mut ck = Ck { rep: &mut rep, sub: "nary", case };
-                        if p == 0 {
-                            nary_case::<f32>(&mut ck, kind, sh, &mut rng);
-                        } else {
-                            nary_case::<Quantity>(&mut ck, kind, sh, &mut rng);
+                        match p {
+                            0 => nary_case::<f32>(&mut ck, kind, sh, &mut rng),
+                            1 => nary_case::<Quantity>(&mut ck, kind, sh, &mut rng),
+                            _ => nary_case::<M2>(&mut ck, kind, sh, &mut rng),
                         }
                     }
                 }
             }
         }
-        rep.exhaustive("SumStream/ProductStream/Latest x arity 1..=5 x {Err(1),Err(2),None,Some}^arity x every weak ordering of the present inputs' timestamps x {f32,Quantity}");
+        rep.exhaustive("SumStream/ProductStream/Latest x arity 1..=5 x {Err(FromNone),Err(1),Err(2),None,Some}^arity x every weak ordering of the present inputs' timestamps x {f32,Quantity,M2 (non-commutative)}");
     }
     // ---- 2. binary arithmetic (+ Sum2 == SumStream<2>, Product2 == ProductStream<2>)
     {
-        let all = shapes(&[4, 4]);
+        let all = shapes(&[AV, AV]);
         rep.tally_n("shapes_binary_per_payload", all.len() as u64);
         let mut idx = 0u64;
         for _ in 0..reps * 40 {
-            for p in 0..2 {
+            for p in 0..3 {
                 for sh in &all {
                     let case = idx;
                     idx += 1;
@@ -967,10 +1500,10 @@ fn main() {
                     }
                     let mut rng = Rng::new(args.seed, 202, case);
                     let mut ck = Ck { rep: &mut rep, sub: "binary", case };
-                    if p == 0 {
-                        binary_case::<f32>(&mut ck, sh, &mut rng);
-                    } else {
-                        binary_case::<Quantity>(&mut ck, sh, &mut rng);
+                    match p {
+                        0 => binary_case::<f32>(&mut ck, sh, &mut rng),
+                        1 => binary_case::<Quantity>(&mut ck, sh, &mut rng),
+                        _ => binary_case::<M2>(&mut ck, sh, &mut rng),
                     }
                 }
             }
@@ -988,12 +1521,12 @@ fn main() {
                 exponent_case(&mut ck, sh, &mut rng);
             }
         }
-        rep.exhaustive("Sum2/Product2/Difference/Quotient/Exponent x {Err(1),Err(2),None,Some}^2 x timestamp order {<,=,>}");
+        rep.exhaustive("Sum2/Product2/Difference/Quotient x {Err(FromNone),Err(1),Err(2),None,Some}^2 x timestamp order {<,=,>} x {f32,Quantity,M2}; ExponentStream likewise on f32");
     }
     // ---- 3. logic
     {
-        let all = shapes(&[5, 5]);
-        let one = shapes(&[5]);
+        let all = shapes(&[AB, AB]);
+        let one = shapes(&[AB]);
         rep.tally_n("shapes_logic2", all.len() as u64);
         let mut idx = 0u64;
         for _ in 0..reps * 40 {
@@ -1021,12 +1554,12 @@ fn main() {
                 not_case(&mut ck, sh, &mut rng);
             }
         }
-        rep.exhaustive("AndStream/OrStream/De Morgan x {Err(1),Err(2),None,Some(false),Some(true)}^2 x timestamp order; NotStream x 5 inputs");
+        rep.exhaustive("AndStream/OrStream/De Morgan x {Err(FromNone),Err(1),Err(2),None,Some(false),Some(true)}^2 x timestamp order; NotStream x 6 inputs");
     }
     // ---- 4. flow
     {
-        let ifs = shapes(&[5, 4]);
-        let ifelse = shapes(&[5, 4, 4]);
+        let ifs = shapes(&[AB, AV]);
+        let ifelse = shapes(&[AB, AV, AV]);
         rep.tally_n("shapes_if_per_payload", ifs.len() as u64);
         rep.tally_n("shapes_ifelse_per_payload", ifelse.len() as u64);
         let mut idx = 0u64;
@@ -1067,14 +1600,14 @@ fn main() {
                 }
             }
         }
-        rep.exhaustive("IfStream x 5 conditions x 4 inputs, IfElseStream x 5 conditions x 4 x 4 branches, x timestamp orders x {f32,Quantity}");
+        rep.exhaustive("IfStream x 6 conditions x 5 inputs, IfElseStream x 6 conditions x 5 x 5 branches, x timestamp orders x {f32,Quantity}");
     }
     // ---- 5. unary / nullary
     {
         let mut idx = 0u64;
         for _ in 0..reps * 10 {
             for p in 0..2 {
-                for code in 0..4u8 {
+                for code in 0..AV {
                     let case = idx;
                     idx += 1;
                     if !args.mine("none_to_error", case) {
@@ -1093,8 +1626,8 @@ fn main() {
         let mut idx = 0u64;
         for _ in 0..reps * 10 {
             for p in 0..2 {
-                for code in 0..4u8 {
-                    for tgc in 0..3u8 {
+                for code in 0..AV {
+                    for tgc in 0..4u8 {
                         for rel in 0..3u8 {
                             let case = idx;
                             idx += 1;
@@ -1116,9 +1649,9 @@ fn main() {
         let mut idx = 0u64;
         for _ in 0..reps * 10 {
             for p in 0..2 {
-                for code in 0..4u8 {
-                    for tgc in 0..3u8 {
-                        for rel in 0..3u8 {
+                for code in 0..AV {
+                    for tgc in 0..4u8 {
+                        for rel in 0..4u8 {
                             for lim in 0..4u8 {
                                 let case = idx;
                                 idx += 1;
@@ -1141,7 +1674,7 @@ fn main() {
         let mut idx = 0u64;
         for _ in 0..reps * 10 {
             for p in 0..3 {
-                for tgc in 0..3u8 {
+                for tgc in 0..4u8 {
                     let case = idx;
                     idx += 1;
                     if !args.mine("constant", case) {
@@ -1170,7 +1703,49 @@ fn main() {
             let mut ck = Ck { rep: &mut rep, sub: "none_getter", case: 0 };
             none_getter_case(&mut ck);
         }
-        rep.exhaustive("NoneToError x 4 inputs; NoneToValue x 4 inputs x 3 clock states x clock-vs-input order; Expirer x 4 inputs x 3 clock states x age {<,=,>} limit x 4 limit strata; ConstantGetter x 3 clock states; NoneGetter; each x {f32,Quantity}");
+        rep.exhaustive("NoneToError x 5 inputs; NoneToValue x 5 inputs x 4 clock states x clock-vs-input order; Expirer x 5 inputs x 4 clock states x {age <,=,> limit; datum newer than the clock by more than |limit|} x 4 limit strata; ConstantGetter x 4 clock states; NoneGetter; each x {f32,Quantity}");
+    }
+    // ---- 6. long-lived instances versus fresh ones over single-aspect changes
+    {
+        let mut kinds: Vec<LK> = Vec::new();
+        for n in 1..=5 {
+            kinds.extend([LK::Sum(n), LK::Product(n), LK::Latest(n)]);
+        }
+        kinds.extend([
+            LK::Sum2, LK::Product2, LK::Difference, LK::Quotient, LK::Exponent, LK::And, LK::Or, LK::Not, LK::If,
+            LK::IfElse, LK::NoneToError, LK::NoneToValue, LK::Expirer, LK::Constant,
+        ]);
+        let seqs = args.pick(400, 6000);
+        let mut idx = 0u64;
+        for _ in 0..seqs {
+            for kind in &kinds {
+                for p in 0..3 {
+                    // ExponentStream exists for f32 only; the logic streams have no value payload
+                    if p > 0 && matches!(kind, LK::Exponent | LK::And | LK::Or | LK::Not) {
+                        continue;
+                    }
+                    let case = idx;
+                    idx += 1;
+                    if !args.mine("longlived", case) {
+                        continue;
+                    }
+                    let mut rng = Rng::new(args.seed, 212, case);
+                    let mut ck = Ck { rep: &mut rep, sub: "longlived", case };
+                    match p {
+                        0 => longlived_case::<f32>(&mut ck, *kind, &mut rng),
+                        1 => longlived_case::<Quantity>(&mut ck, *kind, &mut rng),
+                        _ => longlived_case::<M2>(&mut ck, *kind, &mut rng),
+                    }
+                }
+            }
+        }
+        rep.floor("history_steps:time", 5000);
+        rep.floor("history_steps:value", 5000);
+        rep.floor("history_steps:category", 5000);
+        rep.floor("history_steps_changing_the_output:time", 1000);
+        rep.floor("history_steps_changing_the_output:value", 1000);
+        rep.floor("history_steps_changing_the_output:category", 1000);
+        rep.floor("history_exponent_steps_changing_the_output", 200);
     }
     // coverage the verdict depends on
     rep.floor("out_err", 1000);
@@ -1190,6 +1765,13 @@ fn main() {
     rep.floor("expirer_kept_exactly_at_limit", 20);
     rep.floor("expirer_expired", 20);
     rep.floor("expirer_kept_younger_than_limit", 20);
+    rep.floor("expirer_kept_datum_newer_than_clock_by_more_than_limit", 20);
+    rep.floor("order_sensitive:SumStream", 500);
+    rep.floor("order_sensitive:ProductStream", 500);
+    rep.floor("order_sensitive:Sum2", 50);
+    rep.floor("order_sensitive:Product2", 50);
+    rep.floor("order_sensitive:DifferenceStream", 50);
+    rep.floor("order_sensitive:QuotientStream", 50);
     rep.floor("exponent_f64_crosschecks", 50);
     rep.finish(&args);
 }
